@@ -14,12 +14,12 @@ RULE = ("seeded add/remove/re-add/step/lookup histories (5-60 ops) over a pool o
         "with rejected duplicate adds and unknown removals injected against the current state; non-trivial = a "
         "timestep ran while >=2 equal-priority systems registered at different times were live, and >=1 removal "
         "was followed by a step; distinct = sequence of (op kind, queue position, queue length)"
-        "; also: the SAME System object re-registered, systems with value-based __eq__, real Collector subclasses, systems whose start lies ahead, a registered system re-prioritised (attribute assigned, removed, re-added)")
+        "; also: the SAME System object re-registered, systems with value-based __eq__, real Collector subclasses, systems whose start lies ahead, a registered system re-prioritised (attribute assigned, removed, re-added), a process that has seen up to 2**20 earlier registrations in other models")
 COMPONENTS = {"real": ["ECAgent.Core.SystemManager.add_system/remove_system/execute_systems/__getitem__",
                        "ECAgent.Collectors.Collector (default priority)"],
               "stub": ["System.execute / Collector.collect bodies are harness recorders"]}
 PROBES = ["tie_of_3", "readd_after_remove", "insert_head", "insert_middle", "insert_tail",
-          "negative_next_to_collector", "dup_rejected", "unknown_rejected", "extreme_priority", "same_object_reregistered", "systems_with_value_equality", "falsy_systems", "system_waiting_for_its_start", "reprioritised_same_object"]
+          "negative_next_to_collector", "dup_rejected", "unknown_rejected", "extreme_priority", "same_object_reregistered", "systems_with_value_equality", "falsy_systems", "process_with_earlier_registrations", "systems_returning_values_from_execute", "system_waiting_for_its_start", "reprioritised_same_object"]
 TECHNIQUE = "deterministic simulation: seeded registration/removal histories with injected rejections vs a sorted-list reference, per-timestep execution log oracle"
 LEVEL_TEXT = ("Seeded search over registration histories; after every timestep the execution order recorded from the real "
               "scheduler must equal the reference (descending priority, registration order among equals) and after every "
@@ -76,7 +76,10 @@ def generate(rng, tier):
     if rng.random() < 0.15:      # ids that are falsy or carry format / template syntax (messages quote the id)
         for name in rng.sample(["", "{x}", "%s", "{}", "a b", "{0}"], rng.randint(1, 2)):
             pool[rng.randrange(n)]["id"] = name
-    return dict({"pool": pool, "ops": ops}, **gen_flavour(rng))
+    # a long-lived process: very many registrations (in other models) have happened before this history starts
+    r = rng.random()
+    churn = 2 ** 20 + 11 if r < 0.0004 else (2 ** 16 + 3 if r < 0.003 else (300 if r < 0.02 else 0))
+    return dict({"pool": pool, "ops": ops, "churn": churn}, **gen_flavour(rng))
 
 
 class World:
@@ -91,6 +94,14 @@ class World:
 def execute(sc, ctx):
     Rec_ = rec_class(sc, ctx)       # noqa: N806
     w = World(ctx)
+    if sc.get("churn"):
+        from ECAgent.Core import System
+        tm = Model(seed=1)
+        junk = System("churn", tm)
+        for _ in range(min(int(sc["churn"]), 2 ** 20 + 64)):
+            tm.systems.add_system(junk)
+            tm.systems.remove_system("churn")
+        ctx.probe("process_with_many_earlier_registrations" if sc["churn"] > 1000 else "process_with_earlier_registrations")
     model = Model(seed=20260927)
     sm = model.systems
     ref = RefSched()
